@@ -117,6 +117,12 @@ func (ch *Channel) Invoke(ctx context.Context, methodName string, req, resp inte
 	case <-respCh:
 	}
 	if err != nil {
+		if ctxErr := ctx.Err(); ctxErr != nil {
+			// the transport fails the read with the context's error once the
+			// context has ended; both arms of the select were ready then and
+			// this one happened to be taken
+			return statusFromContextError(ctxErr)
+		}
 		return err
 	}
 	return codec.Unmarshal(b, resp)
